@@ -147,6 +147,11 @@ func genC10(t *rapid.T) CaseC10 {
 		case 1:
 			c.Key = rapid.SampledFrom(shapeKeys).Draw(t, "ukey")
 		}
+	} else if src == 3 && rapid.Bool().Draw(t, "deeplil") {
+		c.Src = "boost-deep-list-in-list"
+		var st []Step
+		c.Map, st, c.Key = boostDeepLIL(t)
+		c.Steps = stepNames(st)
 	} else if src == 2 {
 		// the empty string as a key and as a path segment
 		c.Src = "boost-empty-key"
